@@ -327,19 +327,30 @@ def load_findings(prop):
     except FileNotFoundError:
         data = {}
     out = [f for f in data.get("findings", []) if f.get("property") == prop]
-    # per-property entry files (findings/Cxx.entries.json) are part of the committed list too
-    ep = os.path.join(VERIF, "findings", f"{prop}.entries.json")
-    if os.path.exists(ep):
-        with open(ep) as fh:
-            out += [f for f in json.load(fh) if f.get("property") == prop]
-    return out
+    # per-property files are part of the committed list too: findings/Cxx.entries.json (open entries,
+    # maintained next to the check) and findings/Cxx.fixed.json (repaired defects); one entry per id,
+    # the per-property files take precedence over known_findings.json
+    byid = {f.get("id"): f for f in out}
+    for suffix, status in (("entries", None), ("fixed", "fixed")):
+        ep = os.path.join(VERIF, "findings", f"{prop}.{suffix}.json")
+        if os.path.exists(ep):
+            with open(ep) as fh:
+                for f in json.load(fh):
+                    if f.get("property", prop) != prop:
+                        continue
+                    f = dict(f)
+                    f.setdefault("property", prop)
+                    if status:
+                        f["status"] = status
+                    byid[f.get("id")] = f
+    return list(byid.values())
 
 
 # ----------------------------------------------------------------------------
 # context
 # ----------------------------------------------------------------------------
 class Ctx:
-    def __init__(self, prop, tier, seed):
+    def __init__(self, prop, tier, seed, replay=False):
         self.prop = prop
         self.tier = tier
         self.seed = seed
@@ -359,7 +370,7 @@ class Ctx:
         self._distinct = set()
         # replays of earlier runs of this property are stale: every run rewrites its own
         d = os.path.join(VERIF, "evidence", "replays")
-        if os.path.isdir(d):
+        if os.path.isdir(d) and not replay:
             for f in os.listdir(d):
                 if f.startswith(prop + "-"):
                     try:
